@@ -269,6 +269,12 @@ func (env *ExecEnv) expandParam(fields []*field, pe *ast.ParamExp, mode ExpMode)
 			a = []string{env.Args[1]}
 			null = env.Args[1] == ""
 		default:
+			if !quote {
+				// one field per positional parameter
+				a = make([]string, len(env.Args)-1)
+				copy(a, env.Args[1:])
+				break
+			}
 			var b strings.Builder
 			sep := env.ifs()
 			for i, s := range env.Args[1:] {
@@ -311,7 +317,7 @@ func (env *ExecEnv) expandParam(fields []*field, pe *ast.ParamExp, mode ExpMode)
 				if pe.Name.Value == "@" {
 					n = len(a)
 				} else if len(a) != 0 {
-					n = utf8.RuneCountInString(a[0])
+					n = utf8.RuneCountInString(strings.Join(a, env.ifs()))
 				}
 				fields[len(fields)-1].join(strconv.Itoa(n), quote)
 			case !set && env.Opts&NoUnset != 0:
